@@ -119,7 +119,7 @@ SetI(i, r) == Put(ist, i, r)
 Unch(vs) == UNCHANGED vs
 Step == l' = l + 1
 
-NoQ == [adm |-> {}, ev |-> {}, ret |-> {}, rot |-> FALSE, poolAt |-> <<>>]
+NoQ == [adm |-> {}, ev |-> {}, ret |-> {}, rot |-> FALSE, poolAt |-> <<>>, evicted |-> <<>>, evictedPrev |-> <<>>]
 
 InitVars ==
     /\ lockVal = NoCp /\ lockHist = <<>> /\ replaced = {}
@@ -319,7 +319,10 @@ Point ==
     /\ IF e.name = "rotated"
        THEN /\ inRound' = Put(inRound, e.inst, Get(pool, e.inst, {}))
             /\ pool' = Put(pool, e.inst, {})
-            /\ q' = [q EXCEPT !.rot = TRUE]
+            \* the wait functions of entries evicted from the rotated pool stay reachable
+            \* through the in-sequencing map until the next rotation
+            /\ q' = [q EXCEPT !.rot = TRUE, !.evicted = Put(@, e.inst, {}),
+                              !.evictedPrev = Put(@, e.inst, Get(q.evicted, e.inst, {}))]
        ELSE Unch(<<inRound, pool, q>>)
     /\ Unch(<<tab, lockVal, lockHist, replaced, pubVal, pubHist, objs, subs, acks, ist, firstAck, tampered, viol>>)
     /\ Step
@@ -417,20 +420,29 @@ Quiescent ==
                         P == Get(q.poolAt, s.inst, {})
                         lows == {x \in P : subs[x].low}
                         full == Cardinality(P) >= ps
+                        evP == q.ev \cap P       \* submissions removed from the pool
+                        evEntries == {subs[x].e : x \in evP}
                     IN F("C17.RejectOnlyWhenFull", s.source = "ratelimit" => (full /\ (s.low \/ lows = {})))
                        \* one pending low-priority entry is evicted; every submitter
                        \* waiting on that entry (duplicates share its wait function) is refused
                        \cup F("C17.EvictExactlyOne",
                               (s.source = "sequencer" /\ full) =>
                                  /\ ~s.low
-                                 /\ Cardinality({subs[x].e : x \in q.ev}) = 1
-                                 /\ {subs[x].e : x \in q.ev} \subseteq {subs[x].e : x \in lows}
-                                 /\ Cardinality(q.ev \cap lows) = 1)
-                       \cup F("C17.NoSpuriousEviction", (s.source # "sequencer" \/ ~full) => q.ev = {})
+                                 /\ Cardinality(evEntries) = 1
+                                 /\ evEntries \subseteq {subs[x].e : x \in lows}
+                                 /\ Cardinality(evP \cap lows) = 1)
+                       \cup F("C17.NoSpuriousEviction", (s.source # "sequencer" \/ ~full) => evP = {})
+                       \* a refusal "evicted" outside the pool only for a duplicate of an
+                       \* entry that was evicted from this pool (its stale wait function)
+                       \cup F("C17.EvictedOnlyIfEvicted",
+                              \A x \in q.ev \ P : subs[x].e \in evEntries \cup Get(q.evicted, s.inst, {})
+                                                                   \cup Get(q.evictedPrev, s.inst, {}))
                        \cup F("C17.EvictedAnswer", \A x \in q.ev : subs[x].out = "evicted")
                   ELSE {})
        IN viol' = AddV(viol, av)
-    /\ q' = [adm |-> {}, ev |-> {}, ret |-> {}, rot |-> FALSE, poolAt |-> pool]
+    /\ q' = [adm |-> {}, ev |-> {}, ret |-> {}, rot |-> FALSE, poolAt |-> pool, evictedPrev |-> q.evictedPrev,
+             evicted |-> [i \in DOMAIN q.evicted \cup {subs[x].inst : x \in q.ev} |->
+                            Get(q.evicted, i, {}) \cup {subs[x].e : x \in {y \in q.ev : subs[y].inst = i}}]]
     /\ Unch(<<tab, lockVal, lockHist, replaced, pubVal, pubHist, objs, subs, acks, pool, inRound, ist, firstAck, tampered>>)
     /\ Step
 
